@@ -1,9 +1,24 @@
-"""C12 — encoded bytes follow the Parquet encoding specifications.  E1 (CBMC) obligations: props/C12_e1.py; the E2
-obligations (carquet decoders on reference streams with symbolic layout choices) are appended here."""
-from props import C12_e1
-FILES = C12_e1.FILES
-BUDGET = C12_e1.BUDGET
+"""C12 — encoded bytes follow the Parquet encoding specifications.
+E1 half (props/C12_e1.py, CBMC): carquet encoders -> independent specification decoders (obligations shared with C11_e1, tagged C12) and
+the RLE decoder on specification streams under concrete call scripts.  E2 half (props/C12_e2.py, symx): carquet decoders on streams built by the
+independent specification encoders (run layouts carquet never emits, padded headers, zero-length runs, every mini-block width, other block shapes)."""
+from props import C12_e1 as _e1, C12_e2 as _e2
+FILES = sorted(set(_e1.FILES) | set(_e2.FILES))
+BUDGET = {'quick': 840, 'thorough': 3600}
 
 
 def obligations(tier):
-    return C12_e1.obligations(tier)
+    return _e1.obligations(tier) + _e2.obligations(tier)
+
+
+def evidence_extra(tier):
+    out = {}
+    for m in (_e1, _e2):
+        for k, v in (getattr(m, 'evidence_extra', lambda t: {})(tier) or {}).items():
+            if isinstance(v, list) and isinstance(out.get(k), list):
+                out[k] = out[k] + v
+            elif isinstance(v, dict) and isinstance(out.get(k), dict):
+                out[k].update(v)
+            else:
+                out.setdefault(k, v)
+    return out
